@@ -162,7 +162,12 @@ class Project:
                 src = OTHER_BEFORE + OTHER_AFTER.lstrip("\n") if self.surround != "after" else OTHER_AFTER_DEF.lstrip("\n")
                 if not self.newline and not self.surround:
                     src = OTHER_COMMENT_TAIL  # the other no-trailing-newline shape: an indented comment as last line
-                self._write(path, src if self.newline else src.rstrip("\n"))
+                if self.newline == "blank":
+                    # no final newline, but the last line ends in blanks (editor auto-indent residue / a blank after the last statement)
+                    src = src.rstrip("\n") + ("\n    " if self.surround else "  ")
+                    self._write(path, src)
+                else:
+                    self._write(path, src if self.newline else src.rstrip("\n"))
             elif ps == "stale":
                 src = self._surrounded(kind_src(kind, stale_params(self.params), method=(kind == "function" and self.method), returns=self.returns))
                 self._write(path, src)
